@@ -515,7 +515,8 @@ class OutputVariable(Variable):
                 f"expected a defuzzifier in output variable '{self.name}', but found None"
             )
         # value at t+1
-        value = self.defuzzifier.defuzzify(self.fuzzy, self.minimum, self.maximum)
+        # as an array of its own: defuzzifiers return immutable numpy scalars for single values
+        value = scalar(self.defuzzifier.defuzzify(self.fuzzy, self.minimum, self.maximum))
 
         # previous value is the last element of the value at t
         self.previous_value = np.take(self.value, -1).astype(float)
